@@ -1,5 +1,7 @@
 import Autog.Lemmas.Layers
 import Autog.Model.Phase4
+import Autog.Model.Pipeline
+import Autog.Lemmas.Frame
 /-! # C16 — VAlign centres and PackRight right-aligns every band with exact spacing
 
     Theorems about the model functions `execVerticalAlign` and `execPackRight` (Autog/Model/Phase4.lean), which the
@@ -138,5 +140,49 @@ example : xsOf (execVerticalAlign 5 exG) (exG.layers.toList[1]!) = [0, 5, 20] :=
 example : xsOf (execVerticalAlign 5 exG) (exG.layers.toList[0]!) = [5 / 2] := by decide +kernel
 example : xsOf (execPackRight 5 exG) (exG.layers.toList[1]!) = [0, 5, 20] := by decide +kernel
 example : xsOf (execPackRight 5 exG) (exG.layers.toList[0]!) = [5] := by decide +kernel
+
+end Autog
+
+namespace Autog
+
+/-! ## end to end: what the composed model `layoutModel` returns for a component positioned by VAlign / PackRight -/
+
+theorem phase4Model_valign (cfg : Cfg) (h : cfg.p4 = 1) (g : G) (hn : (g.nodes.size == 1) = false) :
+    phase4Model cfg g = .ok (assignYCoords cfg.ls (execVerticalAlign cfg.ns g)) := by
+  unfold phase4Model phase4Simple
+  simp [hn, h, bind, Except.bind, pure, Except.pure]
+
+theorem phase4Model_packright (cfg : Cfg) (h : cfg.p4 = 2) (g : G) (hn : (g.nodes.size == 1) = false) :
+    phase4Model cfg g = .ok (assignYCoords cfg.ls (execPackRight cfg.ns g)) := by
+  unfold phase4Model phase4Simple
+  simp [hn, h, bind, Except.bind, pure, Except.pure]
+
+/-- Y assignment does not move anything horizontally -/
+theorem assignY_keeps_x (ls : Rat) (g : G) (n : Nat) :
+    ((assignYCoords ls g).node n).x = (g.node n).x ∧ ((assignYCoords ls g).node n).w = (g.node n).w := by
+  have := placeY_dropY (assignYPlan ls g) g n
+  have hx := congrArg Node.x this
+  have hw := congrArg Node.w this
+  simp only [Node.dropY] at hx hw
+  exact ⟨hx, hw⟩
+
+/-- END TO END (VAlign): whatever router runs and however many self-loops are restored, the nodes the composed model hands to
+    the caller for this component are exactly those of `assignYCoords (execVerticalAlign …)`, shifted by the running offset —
+    so the exact spacing / extent / centring statements above are statements about the public result -/
+theorem C16_public_nodes_valign (cfg : Cfg) (hp4 : cfg.p4 = 1) (shift : Rat) (ci : Nat) (g3 g5 : G) (loops : List Nat)
+    (hn : (g3.nodes.size == 1) = false)
+    (h5 : phase5 cfg.p5 cfg.ls (assignYCoords cfg.ls (execVerticalAlign cfg.ns g3)) = .ok g5) :
+    phase4Model cfg g3 = .ok (assignYCoords cfg.ls (execVerticalAlign cfg.ns g3)) ∧
+    (collectComp cfg shift ci (postProcess g5 loops)).nodes =
+      (collectComp cfg shift ci (assignYCoords cfg.ls (execVerticalAlign cfg.ns g3))).nodes :=
+  ⟨phase4Model_valign cfg hp4 g3 hn, (public_nodes_from_phase4 cfg shift ci _ g5 loops h5).1⟩
+
+theorem C16_public_nodes_packright (cfg : Cfg) (hp4 : cfg.p4 = 2) (shift : Rat) (ci : Nat) (g3 g5 : G) (loops : List Nat)
+    (hn : (g3.nodes.size == 1) = false)
+    (h5 : phase5 cfg.p5 cfg.ls (assignYCoords cfg.ls (execPackRight cfg.ns g3)) = .ok g5) :
+    phase4Model cfg g3 = .ok (assignYCoords cfg.ls (execPackRight cfg.ns g3)) ∧
+    (collectComp cfg shift ci (postProcess g5 loops)).nodes =
+      (collectComp cfg shift ci (assignYCoords cfg.ls (execPackRight cfg.ns g3))).nodes :=
+  ⟨phase4Model_packright cfg hp4 g3 hn, (public_nodes_from_phase4 cfg shift ci _ g5 loops h5).1⟩
 
 end Autog
